@@ -261,7 +261,10 @@ theorem dels_fin {sh sh' : Shared} {id f push evs} {log : List Ev} {Q : List Ins
     unfold execFinStale at he
     split at he <;> simp only [Option.some.injEq, Prod.mk.injEq] at he <;> obtain ⟨rfl, rfl, rfl⟩ := he
     · simp [D, delOf]
-    · simp at hst
+    · -- nothing was left to run a second time
+      rename_i n hn
+      simp only [Bool.or_eq_false_iff, Bool.not_eq_eq_eq_not, Bool.not_false, List.isEmpty_iff] at hst
+      simp [D, delOf, hst.2]
   | some n0 =>
     have hfs := findId_some hfind
     simp [hfind] at he; obtain ⟨rfl, rfl, rfl⟩ := he
@@ -365,7 +368,7 @@ theorem stale_mono {sh sh' : Shared} {i push evs} (he : exec sh i = some (sh', p
     · unfold execFinStale at he
       split at he <;> simp only [Option.some.injEq, Prod.mk.injEq] at he <;> obtain ⟨rfl, _, _⟩ := he
       · exact hs
-      · rfl
+      · simp [hs]
     · simp only [Option.some.injEq, Prod.mk.injEq] at he; obtain ⟨rfl, _, _⟩ := he; exact hs
   all_goals (exec_split he <;> simp_all)
 
@@ -427,14 +430,14 @@ theorem logOK_call {sh : Shared} {P : List Instr} {log : List Ev} (h : LogOK sh 
 
 theorem logOK_reachable {g : Bool} {s : Sys} (h : Reachable g s) : LogOK s.sh (pending s) s.log := by
   induction h with
-  | init c n =>
-    have hp : pending (Sys.init c n) = [] := by
-      unfold pending Sys.init
+  | init clr c n =>
+    have hp : pending (Sys.initCfg clr c n) = [] := by
+      unfold pending Sys.initCfg
       induction n with
       | zero => rfl
       | succ n ih => simp [List.replicate_succ] at ih ⊢
     rw [hp]
-    exact ⟨by simp [Sys.init, Shared.new], fun _ => by simp [Sys.init, Shared.new]⟩
+    exact ⟨by simp [Sys.initCfg, Shared.newCfg], fun _ => by simp [Sys.initCfg, Shared.newCfg]⟩
   | @step s s' a hr hs ih =>
     have hinv := inv_reachable hr
     cases a with
